@@ -117,6 +117,7 @@ Proof.
     destruct (conv v_tight_tree root name) as [p|] eqn:Ec; [|apply Nil; auto].
     intro H; inversion H; subst. split; [repeat constructor; exact (conv_below v_tight_tree root name p eq_refl Ec)|auto].
   - apply Drop.
+  - apply Drop.
 Qed.
 
 (* C19_tight_every_entry_confined (the tree since fb3fc0a and 2214ab9): for every sequence of
